@@ -5849,11 +5849,12 @@ class Query(object):
     def _actual_fetch(query, limit=None, offset=None):
         translator = query._translator
         with query._prefetch_context:
-            sql, arguments, attr_offsets, query_key = query._construct_sql_and_arguments(limit, offset)
             database = query._database
             cache = database._get_cache()
             if query._for_update: cache.immediate = True
+            # flush first: arguments may be objects that receive their primary key only when they are inserted
             cache.prepare_connection_for_query_execution()  # may clear cache.query_results
+            sql, arguments, attr_offsets, query_key = query._construct_sql_and_arguments(limit, offset)
             items = cache.query_results.get(query_key)
             if items is None:
                 cursor = database._exec_sql(sql, arguments)
@@ -6002,9 +6003,9 @@ class Query(object):
             cache_entry = database.provider.ast2sql(sql_ast)
             database._constructed_sql_cache[sql_key] = cache_entry
         sql, adapter = cache_entry
-        arguments = adapter(query._vars)
         cache.immediate = True
         cache.prepare_connection_for_query_execution()  # may clear cache.query_results
+        arguments = adapter(query._vars)
         cursor = database._exec_sql(sql, arguments)
         cache.query_results.clear()
         return cursor.rowcount
@@ -6232,9 +6233,11 @@ class Query(object):
         return query._fetch(pagesize, offset, lazy=True)
     def _aggregate(query, aggr_func_name, distinct=None, sep=None):
         translator = query._translator
+        cache = query._database._get_cache()
+        # flush first: pending changes invalidate cached results and give new objects their primary keys
+        cache.prepare_connection_for_query_execution()  # may clear cache.query_results
         sql, arguments, attr_offsets, query_key = query._construct_sql_and_arguments(
             aggr_func_name=aggr_func_name, aggr_func_distinct=distinct, sep=sep)
-        cache = query._database._get_cache()
         try: result = cache.query_results[query_key]
         except KeyError:
             cursor = query._database._exec_sql(sql, arguments)
